@@ -15,15 +15,16 @@ import (
 // Finding is an entry of /verif/known_findings.json (committed, never written
 // at run time).
 type Finding struct {
-	ID         string          `json:"id"`
-	Properties []string        `json:"properties"`
-	Kind       string          `json:"kind"` // "site" | "input"
-	Site       string          `json:"site,omitempty"`
-	Patch      string          `json:"patch,omitempty"` // counterfactual repair of the site (unified diff, repo-relative)
-	Scope      string          `json:"scope,omitempty"`
-	Index      *uint64         `json:"index,omitempty"`
-	Case       json.RawMessage `json:"case,omitempty"`
-	What       string          `json:"what"`
+	ID         string              `json:"id"`
+	Properties []string            `json:"properties"`
+	Kind       string              `json:"kind"` // "site" | "input"
+	Site       string              `json:"site,omitempty"`
+	Patch      string              `json:"patch,omitempty"` // counterfactual repair of the site (unified diff, repo-relative)
+	Scope      string              `json:"scope,omitempty"`
+	Index      *uint64             `json:"index,omitempty"`
+	Case       json.RawMessage     `json:"case,omitempty"`
+	Cases      map[string][]uint64 `json:"cases,omitempty"` // kind "input": scope name -> case indices
+	What       string              `json:"what"`
 }
 
 type findingsFile struct {
@@ -101,7 +102,22 @@ func Main(id, tier string) int {
 		sum = chk.Custom(env)
 	} else {
 		scopes = chk.Scopes(tier)
-		sum = RunScopes(env, exe, scopes, nil)
+		var jobsFilter []job
+		if f := os.Getenv("VERIF_SCOPES"); f != "" {
+			// development aid: explore only the scopes whose name contains the filter (recorded as a cap)
+			for si, sc := range scopes {
+				if strings.Contains(sc.Name, f) {
+					chunk := max(sc.Size/uint64(env.Workers*24), 1)
+					for lo := uint64(0); lo < sc.Size; lo += chunk {
+						jobsFilter = append(jobsFilter, job{scope: si, lo: lo, hi: min(lo+chunk, sc.Size)})
+					}
+				}
+			}
+		}
+		sum = RunScopes(env, exe, scopes, jobsFilter)
+		if jobsFilter != nil {
+			sum.Caps = append(sum.Caps, "VERIF_SCOPES filter active: only matching scopes explored")
+		}
 		for _, sc := range scopes {
 			if sc.Show != nil && sc.Size > 0 && len(sum.Samples) < 6 {
 				sum.Samples = append(sum.Samples, map[string]any{"scope": sc.Name, "index": 0, "case": sc.Show(0)})
@@ -148,7 +164,25 @@ func Main(id, tier string) int {
 	}
 	if total > 0 && chk.Custom == nil {
 		for _, f := range findings {
-			if f.Kind != "input" || f.Index == nil {
+			if f.Kind != "input" {
+				continue
+			}
+			for scope, idxs := range f.Cases {
+				want := map[uint64]bool{}
+				for _, ix := range idxs {
+					want[ix] = true
+				}
+				var keep []uint64
+				for _, ix := range remaining[scope] {
+					if want[ix] {
+						known[f.ID]++
+					} else {
+						keep = append(keep, ix)
+					}
+				}
+				remaining[scope] = keep
+			}
+			if f.Index == nil {
 				continue
 			}
 			list := remaining[f.Scope]
@@ -398,6 +432,7 @@ func Main(id, tier string) int {
 		"counters":                      sum.Counters,
 		"caps_hit":                      sum.Caps,
 		"violating_cases_total":         total,
+		"violating_case_indices":        capIndices(sum.ViolCases, 300),
 		"violating_cases_known_finding": knownTotal,
 		"known_findings_matched":        knownList,
 		"workers":                       env.Workers,
@@ -444,6 +479,17 @@ func Main(id, tier string) int {
 		fmt.Fprintf(env.Log, "  counters:%s\n", sb.String())
 	}
 	return exit
+}
+
+func capIndices(m map[string][]uint64, n int) map[string][]uint64 {
+	out := map[string][]uint64{}
+	for k, v := range m {
+		if len(v) > n {
+			v = v[:n]
+		}
+		out[k] = v
+	}
+	return out
 }
 
 func countCases(m map[string][]uint64) int {
